@@ -193,7 +193,22 @@ func (r *msetRequest) Split() []*simpleRequest {
 func (r *msetRequest) onChildDone(simpleReq *simpleRequest) {
 	wait := r.childWait.Dec()
 	if wait == 0 {
+		r.setResponse()
+	}
+}
+
+func (r *msetRequest) setResponse() {
+	// OK acknowledges every pair: do not say it when some of them were not stored.
+	errCount := 0
+	for _, child := range r.children {
+		if child.Response().Type == Error {
+			errCount++
+		}
+	}
+	if errCount == 0 {
 		r.raw.SetResponse(respOK)
+	} else {
+		r.raw.SetResponse(newError(fmt.Sprintf("finished with %d error(s)", errCount)))
 	}
 }
 
